@@ -104,6 +104,8 @@ C11_PICKLE = [(1, "a\r\n"), {"k": [b"\x00"]}]
 
 def same(a, b):
     """equal and of the same type, recursively"""
+    if a is b:
+        return True  # (also avoids comparing a symbolic value with itself element by element)
     if type(a) is not type(b):
         return False
     if isinstance(a, (list, tuple)):
@@ -301,8 +303,8 @@ def _c11_verdict(target, had_old, old, new, out1, snap1, out2, snap2, value2):
     others = [e for e in snap1 if e[0] != target]
     if tgt:
         _, data, mt = tgt[0]
-        is_old = lambda: had_old and mt == OLD_T and data == old  # noqa: E731
-        is_new = lambda: new is not None and data == new  # noqa: E731
+        is_old = lambda: had_old and mt == OLD_T and (data is old or data == old)  # noqa: E731
+        is_new = lambda: new is not None and (data is new or data == new)  # noqa: E731
     else:
         is_old = lambda: not had_old  # noqa: E731
         is_new = lambda: False  # noqa: E731
@@ -437,19 +439,27 @@ def _c12_common(value, had_old, old, inacc):
     return good
 
 
-def c12_text(s: str, had_old: bool, old: bytes, inacc: bool) -> bool:
+_CLASS_BOUNDS = [0, 0x80, 0x800, 0xD800, 0xE000, 0x10000, 0x110000]
+LENEQ = int(os.environ.get("XH_LENEQ", "-1"))  # exact length of s in this condition (-1: any length <= XH_LEN)
+C0 = int(os.environ.get("XH_C0", "-1"))  # code point class of s[0] in this condition (-1: any)
+
+
+def c12_text(s: str, had_old: bool, old: bytes) -> bool:
     """
-    pre: len(s) <= 4 and len(old) <= 2
+    Round trip of a symbolic str.  Case split (environment): encoding, path kind, mounted, buffering, and optionally the
+    exact length (XH_LENEQ) and the code point class of the first character (XH_C0: index into _CLASS_BOUNDS).
+
+    pre: len(s) <= MAXLEN and len(old) <= 2
+    pre: LENEQ < 0 or len(s) == LENEQ
+    pre: C0 < 0 or (len(s) > 0 and _CLASS_BOUNDS[C0] <= ord(s[0]) < _CLASS_BOUNDS[C0 + 1])
     post: _
     """
     begin()
-    if len(s) > MAXLEN:
-        return True
     try:
         M.encode(s, ENC)
     except UnicodeEncodeError:
         return True  # outside the store's domain: the encoding cannot represent the value
-    if not _c12_common(s, had_old, old, inacc):
+    if not _c12_common(s, had_old, old, False):
         return False
     return ok()
 
@@ -480,7 +490,9 @@ def c12_value(had_old: bool, old: bytes, inacc: bool) -> bool:
 
 
 # ================================================================================================== two writers
-NAMES = ["r", "r.txt", "r.json", "r.tar.gz", "r.tar.bz2", ".r", "r.", "s.txt", "r.txt.bak", "r.t"]
+NAMES = ["r", "r.txt", "r.json", "r.tar.gz", ".r", "r.", "r.tar.bz2", "s.txt", "r.txt.bak", "r.t"]
+NGRID = int(os.environ.get("XH_NGRID", "6"))
+J = int(os.environ.get("XH_J", "3"))
 
 
 def _two_scenario(fs, pa, pb, da, db, j, inside):
@@ -547,31 +559,33 @@ def _two_common(pa, pb, da, db, j, inside):
     return good
 
 
-def c11_two_grid(ia: int, ib: int, da: bytes, db: bytes, j: int, inside: bool) -> bool:
+def c11_two_grid(ia: int, ib: int, da: bytes, db: bytes, inside: bool) -> bool:
     """
-    Two stores in one directory whose names come from a fixed grid (XH_PK = path: pathlib cannot take symbolic names).
+    Two stores in one directory whose names come from a fixed grid (pathlib cannot take symbolic names); B's write
+    starts just before A's file operation number XH_J.
 
-    pre: 0 <= ia < 10 and 0 <= ib < 10 and ia != ib
-    pre: len(da) <= 2 and len(db) <= 2 and 0 <= j <= 3
+    pre: 0 <= ia < NGRID and 0 <= ib < NGRID and ia != ib
+    pre: len(da) <= 2 and len(db) <= 2
     post: _
     """
     begin()
     pa, pb = _path(NAMES[ia]), _path(NAMES[ib])
-    if not _two_common(pa, pb, da, db, j, inside):
+    if not _two_common(pa, pb, da, db, J, inside):
         return False
     return ok()
 
 
-def c11_two_sym(a: str, b: str, da: bytes, db: bytes, j: int, inside: bool) -> bool:
+def c11_two_sym(a: str, b: str, da: bytes, db: bytes, inside: bool) -> bool:
     """
     The same with fully symbolic names (str paths only).  Excluded: names that are not a single path component, and
     pairs where one target IS the other's staging name (impossible below length 8).
 
-    pre: 1 <= len(a) <= 3 and 1 <= len(b) <= 3 and a != b
-    pre: len(da) <= 2 and len(db) <= 2 and 0 <= j <= 3
+    pre: 1 <= len(a) <= MAXLEN and 1 <= len(b) <= MAXLEN and a != b
+    pre: len(da) <= 2 and len(db) <= 2
     post: _
     """
     begin()
+    j = J
     for n in (a, b):
         if "/" in n or "\x00" in n or n == "." or n == "..":
             return True
@@ -589,7 +603,7 @@ def c11_staging_name(a: str, ia: int) -> bool:
     staging paths, and a staging path is never another store's target unless that target itself ends in '.STAGING'.
     XH_PK=str: symbolic name a; XH_PK=path: name NAMES[ia] (pathlib cannot take symbolic names).
 
-    pre: 1 <= len(a) <= 4 and 0 <= ia < 10
+    pre: 1 <= len(a) <= 4 and 0 <= ia < len(NAMES)
     post: _
     """
     begin()
